@@ -287,7 +287,9 @@ def write_replay(prop, n, data):
 
 
 def write_evidence(prop, ev):
-    d = os.path.join(VERIF, "evidence")
+    # VERIF_EVIDENCE_DIR: used by tools/seed_verify.py so that runs against a mutated copy of the
+    # repository never overwrite the evidence of the real tree
+    d = os.environ.get("VERIF_EVIDENCE_DIR") or os.path.join(VERIF, "evidence")
     os.makedirs(d, exist_ok=True)
     with open(os.path.join(d, f"{prop}.json"), "w") as f:
         json.dump(ev, f, indent=1, default=repr)
